@@ -5,5 +5,13 @@ check("C01", "exploration",
       "native-stack probes to depth 3*10^5 / 10^6 at the default 8 MiB stack. Held on the executions observed; not a proof over all byte strings.",
       "Trusted: clang ASan/UBSan, the fork runner's crash attribution, hook H3 (parse_remaining_max). Assumes inputs the generators produce are representative.",
       "sanitizer-instrumented execution + outcome/trace monitors over generated and mutated inputs", "DESIGN.md section 5 C01")
-for _p in ["C%02d" % i for i in range(2, 21)]:
+check("C05", "exploration",
+      "The complete matrix 16 binary + 11 assignment + 5 unary operators x 14 arithmetic types^2 x 17-20 boundary values^2 is "
+      "executed on the real engine through five routes (runtime node, operator-as-function, right-constant fold, constant fold, "
+      "compound assignment; the fold routes sampled 1/8 in quick, complete in thorough) and compared cell by cell with the host "
+      "compiler's own result (value, width, signedness, floating-ness, in-place update); trapping cells must raise; SIGFPE is "
+      "caught and reported. ~2.4M executed cells per quick run.",
+      "Trusted: clang 14 on x86-64 as arithmetic oracle; the UB predicate (__int128/long double) that removes C++-undefined non-trapping cells.",
+      "differential execution against the host compiler over an enumerated operand matrix, under ASan/UBSan", "DESIGN.md section 5 C05")
+for _p in ["C%02d" % i for i in range(2, 21) if "C%02d" % i not in CHECKS]:
     NA[_p] = "check not implemented yet in this revision (work in progress, see DESIGN.md); nothing is claimed"
